@@ -120,6 +120,8 @@ impl World for HandlersWorld {
         out.count("suspends_interleaved", st.conts_interleaved);
         out.count("suspends_pending_at_stop", st.conts_pending_at_end);
         out.count("fails_fired", st.fails);
+        out.count("stops_fired", st.stops);
+        out.count("direct_lane_commands_handled", st.directs);
         out.count("probe.fail_swallowed_agent_continued", st.fails_swallowed);
         out.count("fails_fatal", st.fatal as u64);
         out.count("fail_aborted_frames", st.aborted_frames);
